@@ -22,6 +22,7 @@ import (
 	"strconv"
 	"strings"
 	"sync"
+	"sync/atomic"
 	"syscall"
 	"time"
 
@@ -44,6 +45,7 @@ var (
 	verifDir  = flag.String("verifdir", "", "root of /verif (default: cwd)")
 	repoDir   = flag.String("repo", "/repo", "repository under test")
 	hooksNote = flag.String("hooksnote", "", "set by ./check: on | unavailable")
+	workerBin = flag.String("workerbin", "", "binary used for worker / case / canary children (default: this binary)")
 )
 
 func main() {
@@ -78,6 +80,9 @@ func main() {
 		os.Exit(runWorker(seed))
 	case "case":
 		os.Exit(runCase(seed))
+	case "canary":
+		runCanary()
+		os.Exit(0)
 	default:
 		os.Exit(runDriver(seed))
 	}
@@ -158,6 +163,23 @@ func runCase(seed uint64) int {
 	return 0
 }
 
+// runCanary contains a deliberate data race in harness code: it proves that the race detector is armed.
+func runCanary() {
+	x := 0
+	var wg sync.WaitGroup
+	for g := 0; g < 2; g++ {
+		wg.Add(1)
+		go func() {
+			defer wg.Done()
+			for i := 0; i < 1000; i++ {
+				x++
+			}
+		}()
+	}
+	wg.Wait()
+	fmt.Fprintln(os.Stderr, "canary done", x)
+}
+
 // ---------------------------------------------------------------------------
 // driver
 
@@ -174,6 +196,9 @@ type replayFile struct {
 }
 
 func self() string {
+	if *workerBin != "" {
+		return *workerBin
+	}
 	e, err := os.Executable()
 	if err != nil {
 		return os.Args[0]
@@ -291,7 +316,7 @@ type shardState struct {
 	out      string
 	journal  string
 	stderr   string
-	done     bool
+	done     atomic.Bool
 	err      error
 	lastCase uint64
 	lastMove time.Time
@@ -378,7 +403,7 @@ func runDriver(seed uint64) int {
 			defer wg.Done()
 			st.err = st.cmd.Wait()
 			ef.Close()
-			st.done = true
+			st.done.Store(true)
 		}(st, ef)
 	}
 	// watchdog: a shard whose journal does not move for stallLimit is sent SIGQUIT
@@ -392,7 +417,7 @@ loop:
 			break loop
 		case <-time.After(2 * time.Second):
 			for _, st := range shards {
-				if st.done || st.killed != "" {
+				if st.done.Load() || st.killed != "" {
 					continue
 				}
 				cn := readCaseNo(st.journal)
@@ -404,7 +429,7 @@ loop:
 					st.cmd.Process.Signal(syscall.SIGQUIT)
 					go func(st *shardState) {
 						time.Sleep(15 * time.Second)
-						if !st.done {
+						if !st.done.Load() {
 							st.cmd.Process.Kill()
 						}
 					}(st)
@@ -547,7 +572,32 @@ loop:
 		}
 		os.Remove(rf)
 	}
+	// values that every shard (a fresh process each) must agree on
+	for k, l := range m.Sets {
+		if strings.HasPrefix(k, "agree:") && len(l) != 1 {
+			m.Violations = append(m.Violations, mon.Violation{Property: *propID, Sig: "c18:fresh-process-differs:" + k, Entry: "process", Input: "", Detail: fmt.Sprintf("fresh processes computed different values for %s: %v", k, l), Count: 1})
+		}
+	}
 	if p.Race {
+		// canary: a deliberate race in harness code must be reported by this binary
+		canaryLog := filepath.Join(runDir, *propID+".canary")
+		cc := exec.Command(self(), "-mode", "canary")
+		cc.Env = append(os.Environ(), "GORACE=halt_on_error=0 log_path="+canaryLog)
+		cc.Run()
+		fired := false
+		cfs, _ := filepath.Glob(canaryLog + ".*")
+		for _, f := range cfs {
+			b, _ := os.ReadFile(f)
+			if strings.Contains(string(b), "WARNING: DATA RACE") {
+				fired = true
+			}
+			os.Remove(f)
+		}
+		if fired {
+			m.Counters["race_canary_fired"] = 1
+		} else {
+			m.Inconcl = append(m.Inconcl, "race detector canary did not fire: the worker is not built with -race")
+		}
 		m.Counters["race_reports"] = int64(raceReports)
 		if raceReports > 0 {
 			m.Violations = append(m.Violations, mon.Violation{Property: *propID, Sig: "c18:data-race", Entry: "concurrent", Input: "", Detail: raceSample, Count: int64(raceReports)})
